@@ -77,6 +77,21 @@ func marathon(r *ev.Run, idx int) {
 			if ok, _ := p.State.VerifyTx(x); !ok {
 				continue
 			}
+			if rng.Intn(9) == 0 {
+				// the disk fails while this transaction is admitted: the client is told so, and
+				// whatever the node packs next must still be a block every replica applies to the
+				// producer's state (a transaction whose admission failed has no effects to confirm)
+				p.World.ArmFail(1)
+				err := p.State.DoTx(sn.CloneTx(x))
+				p.World.ArmFail(0)
+				r.Count("marathon.write-error-at-admission", 1)
+				ops = append(ops, fmt.Sprintf("r%d:submit-with-write-error(%s)=%v", round, kind, err == nil))
+				if err == nil {
+					r.Violation("marathon|write-error-swallowed|dotx", "DoTx reported success although its storage write failed", map[string]interface{}{"marathon": idx, "round": round, "ops": ops})
+					return
+				}
+				continue
+			}
 			if p.State.DoTx(sn.CloneTx(x)) == nil {
 				ops = append(ops, fmt.Sprintf("r%d:submit(%s)", round, kind))
 				r.Count("marathon.submitted", 1)
